@@ -1,6 +1,7 @@
 import Chain33Model.Model.C27
 import Chain33Model.Proofs.C27Lift
 import Chain33Model.Proofs.C28Inv
+import Chain33Model.Proofs.C28Window
 /-!
 C28 — Chain holds no replayed, expired or mis-signed transactions.  Property theorems.
 
@@ -119,46 +120,89 @@ theorem chain_tx_signed_regression_old_preExec : ¬ ChainTxSignedOld := by
     b1 (by decide) 1 (by decide)
   exact absurd h1 (by decide)
 
-/-- **chain_tx_unique** — the statement at the strength of the property text (any delivered
-blocks, TxHeight transactions included): no transaction hash occurs twice on the best chain.
-Not proved in full (see `chain_tx_unique_partial`); not refuted either — the differential runs
-and the predicate scan of the implementation's best chain cover TxHeight transactions and
-same-hash bodies. -/
-def ChainTxUnique : Prop :=
-  ∀ (T : Table) (F m hi lo : Nat) (r : Bool) (g : Blk) (evs : List Ev), g.txs = [] →
-    (∀ a sa b sb, Ev.deliver a sa ∈ evs → Ev.deliver b sb ∈ evs → a.id = b.id →
-      a.parent = b.parent ∧ a.height = b.height ∧ a.diff = b.diff ∧ a.time = b.time) →
-    (chainKeys T (node T F m hi lo r g evs).best).Nodup
-
-/-- **chain_tx_unique_partial.**  Hypotheses added: (1) no TxHeight-type transactions (their
-duplicate check goes through the height-window cache, whose exactness is not proved here);
-(2) `U` — the delivered blocks and `g` — holds at most one block per hash (no second body under
-a header; that is C27's subject).  Then after ANY events (valid and invalid blocks, any order,
-reorganisations back and forth) no transaction hash occurs twice on the best chain, and the
-transaction index holds exactly the hashes on the best chain. -/
-theorem chain_tx_unique_partial (T : Table) (hnx : ∀ i, txhOf (T i) = none)
-    (U : List Blk) (hU : ∀ a ∈ U, ∀ b ∈ U, a.id = b.id → a = b)
-    (F m hi lo : Nat) (r : Bool) (g : Blk) (hg : g.txs = []) (hgU : g ∈ U) (evs : List Ev)
+/-- **chain_tx_unique** — FULL statement: TxHeight transactions included, several bodies under
+one block hash allowed (the one-body-per-hash hypothesis of the earlier partial theorem is NOT
+needed: S-C27b poisons the index and the store, but whatever is connected was executed and is what
+the store then holds under that hash).  Hypotheses = the laws of the two hash functions over the
+delivered blocks `U` and the transaction table, and the shape of genesis:
+`HashLaw` — `Transaction.Hash()` covers Expire; `HeaderLaw` — `Block.Hash` covers parent hash and
+height; genesis has height 0, no transactions, and a parent hash that is no block's hash; the
+window `hi + lo` is at least 1 (`initAllowPackHeight` requires both > 0).
+After ANY events — valid and invalid blocks in any order, tampered bodies, reorganisations back
+and forth, mempool traffic, node RESTARTS — a transaction hash occurs in at most one block of the
+best chain and at most once in it (`KeyUniq`), i.e. the list of hashes along the chain has no
+duplicate; a TxHeight transaction can only sit inside its validity window
+(`chain_tx_unexpired_fee_chainid`), so this is "unique within its validity window". -/
+theorem chain_tx_unique (T : Table) (hT : HashLaw T) (U : List Blk) (hU : HeaderLaw U)
+    (F m hi lo : Nat) (hw : 1 ≤ hi + lo) (r : Bool) (g : Blk) (hgU : g ∈ U) (hg0 : g.height = 0)
+    (hgt : g.txs = []) (hgp : ∀ x ∈ U, x.id ≠ g.parent) (evs : List Ev)
     (hev : ∀ b src, Ev.deliver b src ∈ evs → b ∈ U) :
     let s := node T F m hi lo r g evs
-    (chainKeys T s.best).Nodup ∧ ∀ h, (s.txIdx h).isSome = true ↔ h ∈ chainKeys T s.best := by
+    KeyUniq T s.best ∧ (chainKeys T s.best).Nodup := by
   intro s
-  have h0 : QS (fun b => b ∈ U) (UniqInv T U) (init F m hi lo r g) := by
-    refine ⟨⟨?_, ?_, ?_⟩, seen_init F m hi lo r g hgU⟩
-    · intro x hx
-      simp only [init, List.mem_singleton] at hx
-      subst hx; exact hgU
-    · intro h; simp [init, chainKeys, hg]
-    · simp [init, chainKeys, hg]
-  have h1 := (uniq_pres T hnx U hU).run evs _ (fun e he => by
+  have H : Hyp T U g hi lo := ⟨hT, hU, hgU, hg0, hgt, hgp, hw⟩
+  have h0 : QS (fun b => b ∈ U) (WInv T U g hi lo) (init F m hi lo r g) :=
+    ⟨Or.inr (good_init H F m r), seen_init F m hi lo r g hgU⟩
+  have h1 := (winv_pres H).run evs _ (fun e he => by
     cases e with
     | deliver b s => exact hev b s he
     | poolAdd x => trivial
     | poolDel x => trivial
     | restart => trivial) h0
-  exact ⟨h1.1.2.2, h1.1.2.1⟩
+  rcases h1.1 with hnil | G
+  · have : s.best = [] := hnil
+    rw [this]
+    exact ⟨⟨fun x hx => absurd hx (List.not_mem_nil), fun x hx => absurd hx (List.not_mem_nil)⟩, by simp [chainKeys]⟩
+  · exact ⟨G.uniq, KeyUniq.nodup_chainKeys (Linked.nodup G.linked) G.uniq⟩
 
-/-- Non-vacuity of `chain_tx_unique_partial`: duplicates in one block, in a later block, and after
+/-- Non-vacuity with a TxHeight transaction and a restart (window hi = 2, lo = 1): instance 5
+(txHeight 2, packable at heights 1..4) is packed at height 1; after a restart the cache is rebuilt
+and its replay at height 3 is refused as a duplicate; at height 5 it is refused as expired. -/
+example :
+    let T : Table := fun i => { hash := i, sigOk := true, exp := if i = 5 then .txHeight 2 else .none, feeOk := true, chainOk := true }
+    let g : Blk := { id := 0, parent := 0, height := 0, diff := 1, time := 0, txs := [] }
+    let b1 : Blk := { id := 1, parent := 0, height := 1, diff := 1, time := 1, txs := [5] }
+    let b2 : Blk := { id := 2, parent := 1, height := 2, diff := 1, time := 2, txs := [6] }
+    let b3 : Blk := { id := 3, parent := 2, height := 3, diff := 1, time := 3, txs := [5, 7] }
+    let c3 : Blk := { id := 4, parent := 2, height := 3, diff := 1, time := 3, txs := [8] }
+    let c4 : Blk := { id := 5, parent := 4, height := 4, diff := 1, time := 4, txs := [9] }
+    let b5 : Blk := { id := 6, parent := 5, height := 5, diff := 1, time := 5, txs := [5] }
+    let s := node T 0 12 2 1 false g [.deliver b1 .peer, .deliver b2 .peer, .restart, .deliver b3 .peer,
+      .deliver c3 .peer, .deliver c4 .peer, .deliver b5 .peer]
+    s.best.map (·.id) = [5, 4, 2, 1, 0] ∧ s.errLog 3 = some .txDup ∧ s.errLog 6 = some .blockExec ∧
+    chainKeys T s.best = [9, 8, 6, 5] := by decide
+
+/-- **txheight_window_cached** — the cache-exactness invariant behind it (the direction the
+duplicate check relies on): after ANY events, restarts included (`InitCache` rebuilds the cache from
+the last `hi + lo` heights of the database), every TxHeight transaction of a best-chain block less
+than `hi + lo` below the tip is in the running `txHashCache`; the transaction index holds exactly
+the hashes on the best chain; the stored main-chain block at every height is the connected one. -/
+theorem txheight_window_cached (T : Table) (hT : HashLaw T) (U : List Blk) (hU : HeaderLaw U)
+    (F m hi lo : Nat) (hw : 1 ≤ hi + lo) (r : Bool) (g : Blk) (hgU : g ∈ U) (hg0 : g.height = 0)
+    (hgt : g.txs = []) (hgp : ∀ x ∈ U, x.id ≠ g.parent) (evs : List Ev)
+    (hev : ∀ b src, Ev.deliver b src ∈ evs → b ∈ U) :
+    let s := node T F m hi lo r g evs
+    ∀ tip rest, s.best = tip :: rest →
+      (∀ x ∈ s.best, ∀ t ∈ x.txs, ∀ th, txhOf (T t) = some th →
+        tip.height < x.height + (hi + lo) → (th, (T t).hash) ∈ s.cache) ∧
+      (∀ k, (s.txIdx k).isSome = true ↔ k ∈ chainKeys T s.best) ∧
+      (∀ x ∈ s.best, blockAt s x.height = some x) := by
+  intro s tip rest hbest
+  have H : Hyp T U g hi lo := ⟨hT, hU, hgU, hg0, hgt, hgp, hw⟩
+  have h0 : QS (fun b => b ∈ U) (WInv T U g hi lo) (init F m hi lo r g) :=
+    ⟨Or.inr (good_init H F m r), seen_init F m hi lo r g hgU⟩
+  have h1 := (winv_pres H).run evs _ (fun e he => by
+    cases e with
+    | deliver b s => exact hev b s he
+    | poolAdd x => trivial
+    | poolDel x => trivial
+    | restart => trivial) h0
+  rcases h1.1 with hnil | G
+  · have : s.best = [] := hnil
+    rw [this] at hbest; cases hbest
+  · exact ⟨G.win tip rest hbest, G.idx, fun x hx => G.atBest hx⟩
+
+/-- Non-vacuity of `chain_tx_unique`: duplicates in one block, in a later block, and after
 a reorganisation (margin 1): block 3 (heavier branch) carries the transaction of block 1. -/
 example :
     let T : Table := fun i => { hash := i, sigOk := true, exp := .none, feeOk := true, chainOk := true }
